@@ -3,19 +3,19 @@ import ThriftVerif.Facts.ExpectCompile
 #print axioms ThriftVerif.Properties.C09.getD_map_default
 #print axioms ThriftVerif.Properties.C09.compiled_module
 #print axioms ThriftVerif.Properties.C09.structOpts_allowNeg
-#print axioms ThriftVerif.Properties.C09.field_id_exact_partial
+#print axioms ThriftVerif.Properties.C09.field_id_exact
 #print axioms ThriftVerif.Properties.C09.field_id_exact_strict
-#print axioms ThriftVerif.Properties.C09.field_wrap
-#print axioms ThriftVerif.Properties.C09.enum_value_exact_partial
-#print axioms ThriftVerif.Properties.C09.enum_wrap
-#print axioms ThriftVerif.Properties.C09.const_int_exact
-#print axioms ThriftVerif.Properties.C09.const_in_range_partial
-#print axioms ThriftVerif.Properties.C09.i8_unchecked
-#print axioms ThriftVerif.Properties.C09.enum_const_exact_partial
-#print axioms ThriftVerif.Properties.C09.enum_cast_wraps
+#print axioms ThriftVerif.Properties.C09.field_wrap_rejected
+#print axioms ThriftVerif.Properties.C09.enum_value_exact
+#print axioms ThriftVerif.Properties.C09.enum_wrap_rejected
+#print axioms ThriftVerif.Properties.C09.const_in_range
+#print axioms ThriftVerif.Properties.C09.i8_out_of_range_rejected
+#print axioms ThriftVerif.Properties.C09.enum_const_exact
+#print axioms ThriftVerif.Properties.C09.enum_cast_wrap_rejected
 #print axioms ThriftVerif.Properties.C09.function_names_unique
-#print axioms ThriftVerif.Properties.C09.self_const_accepted
-#print axioms ThriftVerif.Properties.C09.self_service_accepted
+#print axioms ThriftVerif.Properties.C09.self_const_rejected
+#print axioms ThriftVerif.Properties.C09.self_service_rejected
 #print axioms ThriftVerif.Facts.ExpectCompile.conversions_ok
 #print axioms ThriftVerif.Facts.ExpectCompile.fieldIdCheck_ok
 #print axioms ThriftVerif.Facts.ExpectCompile.enumPrevInit_ok
+#print axioms ThriftVerif.Facts.ExpectCompile.intRangeChecks_ok
